@@ -18,9 +18,44 @@ def run_real_multi(sc, build, follow=False):
     for i, t in enumerate(sub_times(sc)):
         rec = vt.Recorder(w, "r" if i == 0 else "r%d" % i, follow=follow)
         recs.append(rec)
+        if i == 0 and sc.get("feedback"):
+            _arm_feedback(w, rec, sc["feedback"])
         w.at(t, (lambda rec=rec: _sub(rec, obs)))
     w.run(sc["horizon"])
     return w, recs
+
+
+def _arm_feedback(w, rec, fb):
+    """the consumer reacts to its i-th element by pushing a follow-up element into the (hot) source, synchronously"""
+    n = [0]
+
+    def on_each(v):
+        i = n[0]
+        n[0] += 1
+        fv = fb["at"].get(str(i))
+        if fv is not None:
+            w.fired.append((w.tick(), "subscriber:feeds_back_into:%s" % fb["sid"], i))
+            w.sources[fb["sid"]]._broadcast("N", vt.dec(fv))
+
+    rec.on_each = on_each
+
+
+def gen_feedback(rng, sc, sid, values=None, p=0.07):
+    """(generators) with probability p, and only over a hot source subscribed once, add a feedback plan to the scenario"""
+    spec = [s for s in sc["sources"] if s["id"] == sid][0]
+    if spec["kind"] != "hot" or rng.random() >= p:
+        return
+    sc.pop("sub2_t", None)
+    at = {}
+    for i in sorted(rng.sample(range(0, 4), rng.choice([1, 1, 2]))):
+        at[str(i)] = rng.choice(values) if values else {"t": ["fb", i]}
+    sc["feedback"] = {"sid": sid, "at": at}
+
+
+def _count_feedback(w, out):
+    n = len([f for f in w.fired if f[1].startswith("subscriber:feeds_back_into:")])
+    if n:
+        out.faults["subscriber_feeds_back"] += n
 
 
 def run_real(sc, build, follow=False):
@@ -38,6 +73,7 @@ def _sub(rec, obs):
 def run_model(sc, model, t=None):
     eng = evmodel.Engine(sc["sources"])
     eng.now = float(sc["sub_t"] if t is None else t)
+    eng.feedback = sc.get("feedback")
     model(eng, sc)
     eng.run(sc["horizon"])
     return eng
@@ -59,6 +95,7 @@ def compare(sc, build, model, out, desc, check_intervals=True, drop_empty=False,
     interpreter once per subscription; fill `out`.  Returns (w, rec, eng) of the first subscription or None on a tie."""
     w, recs = run_real_multi(sc, build)
     out.sim_time = sc["horizon"]
+    _count_feedback(w, out)
     first = None
     all_model_iv = {}
     for i, (t, rec) in enumerate(zip(sub_times(sc), recs)):
